@@ -13,6 +13,9 @@ import FP.Proofs.SafetyMaxSeq
 import FP.Proofs.SafetyFlow
 import FP.Proofs.SafetyExcess
 import FP.Proofs.SafetyIncompat
+import FP.Proofs.Antichain
+import FP.Proofs.C06Incompat
+import FP.Proofs.C06IncompatExample
 /-!
 # C06 — safe paths / sequences are truly safe, mutually incompatible, and prune soundly
 
@@ -33,12 +36,19 @@ Proven here (for **all** graphs — acyclicity is never needed — and all trust
   `compute_inexact_flow_decomp_safe_paths` are in every flow decomposition (`excess_flow_safe_partial`: the
   loop invariant, `excess_flow_lemma`: the excess-flow lemma).
 
-* `incompatible_sound_partial` — `get_longest_incompatible_sequences` is pairwise incompatible given an
-  antichain and input sequences that share no parallel inter-SCC edge.
+* `incompatible_sound` — T6 in full: on a well-formed digraph with distinct edges, `mapping` an SCC numbering,
+  the members of the antichain pairwise unreachable in the expanded condensation (the contract that C17 proves
+  for the extraction, `antichain_contract_of_extraction`), the sequences that
+  `get_longest_incompatible_sequences` chooses among the maximal safe sequences are pairwise never contained in
+  one source-to-sink walk. `incompatible_sound_family`: the same for every family of sequences with pairwise
+  different cores (`CoreFamily`, which `maximal_safe_sequences_core_family` proves of the maximal safe
+  sequences); `antichain_hyp_of_contract`: the projection of walks to the expanded condensation.
+* `incompatible_sound_partial` — the earlier form under `AntichainHyp` and `NoSharedParallel` (kept; its second
+  hypothesis is *not* satisfied by the maximal safe sequences in general, see the note at `incompatible_sound`).
 
-Stated, not proven (see the note at the definition): `incompatible_sound_FullStatement` (T6 for the maximal
-safe sequences themselves). For it the check relies on the exact-output tie `K1.longest_incompatible` and
-on the independent co-occurrence oracle of `harness/props/c06.py`.
+The SCC numbering (`nx.condensation`) and the network simplex behind `compute_max_edge_antichain` stay oracle
+parameters; their contracts are the hypotheses `SccLabelling` and `CondAntichain`, checked on every real run by
+`harness/props/c06.py` (and the final result by the independent co-occurrence oracle).
 -/
 namespace FP.Props.C06
 open FP FP.Spec FP.Safety
@@ -191,23 +201,64 @@ theorem incompatible_sound_partial (c : Cond) (s t : Node) (seqs : List (List Ed
     chosen.Pairwise fun p q => ¬ CoOccur c.g s t p q :=
   longestIncompatible_pairwise c s t seqs anti chosen hanti hshare h
 
-/-- **T6, full statement (not proven).** For the maximal safe sequences of the graph the result of
-`get_longest_incompatible_sequences` is pairwise incompatible whenever `mapping` numbers the strongly
-connected components and the members obtained from `compute_max_edge_antichain` form an antichain.
-Missing beyond `incompatible_sound_partial`: that maximal safe sequences satisfy `NoSharedParallel` (an
-inter-SCC edge with a parallel twin dominates nothing, so it belongs only to the sequence of its own core),
-and a model of `nx.condensation` / `compute_max_edge_antichain` (both enter as captured data).
-Evidence instead: the tie `K1.longest_incompatible` and the co-occurrence oracle on every real result. -/
-def incompatible_sound_FullStatement : Prop :=
-  ∀ (c : Cond) (s t : Node) (X : List Edge) (seqs : List (List Edge)) (anti : List (String × String))
-    (chosen : List (List Edge)),
-    GraphWF c.g →
-    (∀ u v, (lookupD c.mapping u 0 = lookupD c.mapping v 0) ↔
-      (Reach c.g.edges u v ∧ Reach c.g.edges v u)) →
-    maxSafeSeqs c.g s t X = .ok seqs →
-    AntichainHyp c s t anti →
-    longestIncompatible c seqs anti = .ok chosen →
-    chosen.Pairwise fun p q => ¬ CoOccur c.g s t p q
+/-- the maximal safe sequences come with pairwise different cores: sequence `i` contains `core i`, occurs in
+every source-to-sink walk through `core i`, and `core i ≠ core j` for `i ≠ j` (the cores are the distinct members
+of `X` that `maximal_safe_sequences_via_dominators` selects) -/
+theorem maximal_safe_sequences_core_family (g : Graph) (hg : GraphWF g) (s t : Node) (X : List Edge)
+    (seqs : List (List Edge)) (h : maxSafeSeqs g s t X = .ok seqs) : CoreFamily g s t seqs :=
+  c06i_maxSafeSeqs_coreFamily g hg s t X seqs h
+
+/-- **contract of `compute_max_edge_antichain`, as used by T6.** If the list handed back is an edge antichain
+(`IsEdgeAntichain`: pairwise, the head of none reaches the tail of another) of a graph `G` that contains the
+expanded condensation, its members are pairwise unreachable in the expanded condensation. -/
+theorem antichain_contract (c : Cond) (G : Graph) (anti : List (String × String))
+    (hsub : ∀ e ∈ c.g.edges, c.expandedEdge e ∈ G.edges) (h : IsEdgeAntichain G anti) : CondAntichain c anti :=
+  c06i_condAntichain_of_isEdgeAntichain c G anti hsub h
+
+/-- the same, straight from the extraction modelled in C17 (`FP.Props.C17.antichain_sound`): whatever flow the
+solver returned, the list extracted from the (augmented) expanded condensation satisfies `CondAntichain` -/
+theorem antichain_contract_of_extraction (c : Cond) (a : ACInput) (A : List Edge)
+    (hsub : ∀ e ∈ c.g.edges, c.expandedEdge e ∈ a.g.edges) (h : acExtract a = .ok (some A)) :
+    CondAntichain c A :=
+  antichain_contract c a.g A hsub (acExtract_sound a A h).choose_spec.2.2.2.2.2
+
+/-- **projection to the expanded condensation.** A source-to-sink walk of the digraph that takes two different
+graph edges takes their members of the expanded condensation in the same order; with an SCC numbering and
+pairwise unreachable members, no walk traverses graph edges of two different members, nor two parallel graph
+edges of one inter-SCC member (the first hypothesis of `incompatible_sound_partial`). -/
+theorem antichain_hyp_of_contract (c : Cond) (s t : Node) (anti : List (String × String)) (hg : GraphWF c.g)
+    (hscc : SccLabelling c) (hanti : CondAntichain c anti) : AntichainHyp c s t anti :=
+  c06i_antichainHyp c s t anti hg hscc hanti
+
+/-- **T6, for every family with pairwise different cores.** Hypotheses: edges join nodes and are distinct;
+`mapping` numbers the strongly connected components (`SccLabelling`: same number iff mutually reachable, for
+nodes of the graph); the input sequences are a `CoreFamily`; the members of the antichain are pairwise
+unreachable in the expanded condensation (`CondAntichain`). -/
+theorem incompatible_sound_family (c : Cond) (s t : Node) (seqs : List (List Edge))
+    (anti : List (String × String)) (chosen : List (List Edge))
+    (hg : GraphWF c.g) (hnd : c.g.edges.Nodup) (hscc : SccLabelling c) (hfam : CoreFamily c.g s t seqs)
+    (hanti : CondAntichain c anti) (h : longestIncompatible c seqs anti = .ok chosen) :
+    chosen.Pairwise fun p q => ¬ CoOccur c.g s t p q :=
+  c06i_incompatible_family c s t seqs anti chosen hg hnd hscc hfam hanti h
+
+/-- **T6.** The sequences that `get_longest_incompatible_sequences` assembles for different slots out of the
+maximal safe sequences of the graph are pairwise never contained in one source-to-sink walk, whenever `mapping`
+numbers the strongly connected components and the members obtained from `compute_max_edge_antichain` are pairwise
+unreachable in the expanded condensation (`antichain_contract_of_extraction`). Any `s`, `t`, any `X`.
+
+What replaces `NoSharedParallel` (which is false for the maximal safe sequences: every sequence of a graph with
+a single source edge shares that edge, an inter-SCC member of multiplicity one that the antichain may well
+contain — on the real code in about one run out of eight): a member of multiplicity one keeps one sequence
+anyway; an inter-SCC edge `e` that has a parallel twin dominates nothing (`c06i_reroute`), so a sequence that
+contains `e` and lies on a source-to-sink walk has the core `e` (`c06i_twin_core`), and different sequences have
+different cores. Distinctness of the graph edges is needed: the multiplicity is a count over `G.edges`. -/
+theorem incompatible_sound (c : Cond) (s t : Node) (X : List Edge) (seqs : List (List Edge))
+    (anti : List (String × String)) (chosen : List (List Edge))
+    (hg : GraphWF c.g) (hnd : c.g.edges.Nodup) (hscc : SccLabelling c)
+    (hseqs : maxSafeSeqs c.g s t X = .ok seqs) (hanti : CondAntichain c anti)
+    (h : longestIncompatible c seqs anti = .ok chosen) :
+    chosen.Pairwise fun p q => ¬ CoOccur c.g s t p q :=
+  c06i_incompatible_sound c s t X seqs anti chosen hg hnd hscc hseqs hanti h
 
 /-! ## Non-vacuity -/
 
@@ -239,8 +290,28 @@ example : maxSafeSeqs exC "source" "sink" [("c", "d"), ("b", "sink")] =
     .ok [[("source", "a"), ("a", "b"), ("b", "c"), ("c", "d"), ("d", "sink")],
          [("source", "a"), ("a", "b"), ("b", "sink")]] := by decide
 
--- (`longestIncompatible` and `flowSafePaths` use `Nat.repr`, `mergeSort` and `Rat` arithmetic, which the kernel
--- does not unfold under `decide`; their non-trivial runs are the K1 suites `K1.longest_incompatible` and
--- `K1.flow_safe_paths`.)
+/-- **T6 is not vacuous**: the digraph `exP` (`FP/Proofs/C06IncompatExample.lean`) has the cycle `a ⇄ b`, the two
+parallel edges `a→c`, `b→c` between the components `{a,b}` and `{c}` and a second branch through `d`. With the SCC
+numbering and the antichain of the real run all hypotheses of `incompatible_sound` hold, three sequences are
+chosen — both sequences of the parallel edges among them, which share the inter-SCC edges `(source,a)` and
+`(c,sink)` — and they pairwise share no walk. -/
+example : GraphWF exP ∧ exP.edges.Nodup ∧ SccLabelling exPc ∧ CondAntichain exPc exPanti ∧
+    maxSafeSeqs exPc.g "source" "sink" exP.edges = .ok exPseqs ∧
+    longestIncompatible exPc exPseqs exPanti = .ok exPchosen ∧ exPchosen.length = 3 ∧
+    exPchosen.Pairwise fun p q => ¬ CoOccur exP "source" "sink" p q :=
+  ⟨exP_wf, exP_nodup, exP_scc, exP_anti, exP_maxSafeSeqs, exP_longest, rfl,
+   incompatible_sound exPc "source" "sink" exP.edges exPseqs exPanti exPchosen exP_wf exP_nodup exP_scc
+     exP_maxSafeSeqs exP_anti exP_longest⟩
+
+/-- the second hypothesis of `incompatible_sound_partial` fails on a real run: for `exQ` (`u → v`, `u → sink`, loops
+at `v` and `x`, `v → x`, `x → sink`) two maximal safe sequences share `(u, v)`, the only graph edge of a member of
+the antichain that the real code obtained — while the hypotheses of `incompatible_sound` hold -/
+example : maxSafeSeqs exQ "source" "sink" exQ.edges = .ok exQseqs ∧ SccLabelling exQc ∧
+    CondAntichain exQc exQanti ∧ ¬ NoSharedParallel exQc exQseqs exQanti :=
+  ⟨exQ_maxSafeSeqs, exQ_scc, exQ_anti, exQ_shared⟩
+
+-- (`flowSafePaths` uses `Rat` arithmetic and `mergeSort`, which the kernel does not unfold under `decide`; its
+-- non-trivial runs are the K1 suite `K1.flow_safe_paths`. `longestIncompatible` is evaluated above with
+-- `mergeSort` unfolded by hand.)
 
 end FP.Props.C06
